@@ -33,7 +33,7 @@ EXT = {
     "C26": {"technique": " + Coq model and proofs of the back conversion STN -> time-triggered plan on top of C25's DeltaSTN model (Props/C26_back.v) with correspondence against the real conversion (harness/ext/c26_back.py)"},
     "C28": {
         "technique": " + Gallina model of the TimedToSequential compiler tied to the real compiler by correspondence (harness/ext/c28_whole.py) and Coq proofs about the back-converted plan (chained, pairwise disjoint steps, accepted durations; Props/C28_whole.v)",
-        "note": " Whole-plan validity (tt_valid of the back-converted plan in the reference dense-time semantics) is PROVED for problems mixing instantaneous actions with durative actions whose effects are all at the end (C28_whole_plan_no_start_read), with the two-happening step lemma for start effects that are not read (C28_whole_step_start_not_read); the general statement with start-effect substitution is the Definition C28_whole_plan_goal and stays validated; its refuted instances are recorded findings (bounded type violated between start and end, empty duration interval, forall effect, three aliasing shapes).",
+        "note": " Whole-plan validity (tt_valid of the back-converted plan in the reference dense-time semantics) is PROVED for problems mixing instantaneous actions with durative actions whose effects are all at the end (C28_whole_plan_no_start_read), and for durative actions with start effects that the action itself does not read (C28_whole_plan_start_not_read); the general statement with start-effect substitution is the Definition C28_whole_plan_goal and stays validated; its refuted instances are recorded findings (bounded type violated between start and end, empty duration interval, forall effect, three aliasing shapes).",
     },
 }
 
